@@ -293,7 +293,7 @@ func TestBoundedC02RefMap(t *testing.T) {
 			}
 			for o := range ops {
 				// bbolt and the file tree sync every write: restrict the first operation to one key there
-				if c.storage != "hashmap" && len(seq) == 0 && !strings.Contains(ops[o].name, "x/a") && !strings.Contains(ops[o].name, "Maintain") {
+				if (c.storage != "hashmap" || c.depth > 2) && len(seq) == 0 && !strings.Contains(ops[o].name, "x/a") && !strings.Contains(ops[o].name, "Maintain") {
 					continue
 				}
 				rec(append(append([]int{}, seq...), o))
@@ -305,7 +305,7 @@ func TestBoundedC02RefMap(t *testing.T) {
 		}
 		_ = ci
 	}
-	fmt.Printf("BOUNDED name=C02/reference-map cases=%d distinct=%d bound=every sequence of up to 2 operations (3 on one hashmap configuration in the thorough tier; on bbolt and fstree the first operation only on one key) out of %d operation instances (put, put-new, delete, put of an expired record, expiry in the past, expiry in the future on 5 keys sharing prefixes and path separators; record-state maintenance; maintenance) plus %d longer sequences (re-put after delete and maintenance, expiry then maintenance, double delete), on hashmap, bbolt and fstree x shadow delete on/off x read cache off/on; after every step Get and Exists of all keys and 32 queries (8 key prefixes incl. non-boundary prefixes x no condition / integer condition / string condition / string operator on a number field) are compared with a reference map\n",
+	fmt.Printf("BOUNDED name=C02/reference-map cases=%d distinct=%d bound=every sequence of up to 2 operations (3 on one hashmap configuration in the thorough tier; there, and on bbolt and fstree, the first operation only on one key) out of %d operation instances (put, put-new, delete, put of an expired record, expiry in the past, expiry in the future on 5 keys sharing prefixes and path separators; record-state maintenance; maintenance) plus %d longer sequences (re-put after delete and maintenance, expiry then maintenance, double delete), on hashmap, bbolt and fstree x shadow delete on/off x read cache off/on; after every step Get and Exists of all keys and 32 queries (8 key prefixes incl. non-boundary prefixes x no condition / integer condition / string condition / string operator on a number field) are compared with a reference map\n",
 		cases, cases, len(ops), len(extra))
 	if fails > 0 {
 		t.Fatalf("%d of %d sequences differ from the reference map", fails, cases)
